@@ -312,9 +312,12 @@ def shrink_signature(mod: Any, ctx: Ctx, sig: str, allowance: float) -> tuple[An
     deadline = time.time() + allowance
     patch_hypothesis()
 
+    class _Stop(Exception):
+        pass
+
     def pred(case: Any) -> bool:
         if time.time() > deadline:
-            return False
+            raise _Stop
         try:
             out = mod.examine(case, ctx)
         except Exception:  # noqa: BLE001
@@ -341,7 +344,7 @@ def shrink_signature(mod: Any, ctx: Ctx, sig: str, allowance: float) -> tuple[An
             ),
             random=random.Random(ctx.seed),
         )
-    except NoSuchExample:
+    except (NoSuchExample, _Stop):
         pass
     except Exception:  # noqa: BLE001 - shrinking is best effort
         pass
